@@ -68,7 +68,12 @@ theorem denote_length (t : Term K) (x y : List K) (h : x.length = y.length) :
     (denote cj t x).length = (denote cj t y).length :=
   denote_length_congr cj t x y h
 
+end Linear
+
 /-! ### The family schemas have the parity the property requires, whatever their parameters -/
+section Parity
+variable {K : Type}
+
 
 theorem pointwise_parity (m : List K) : parity (pointwise m) = some false := rfl
 theorem dense_parity (A : List (List K)) : parity (dense A) = some false := rfl
@@ -159,6 +164,11 @@ theorem family_parity (f : Family) (args : List (Arg K)) (t : Term K) (h : famil
     · cases h; exact fibreNullerBackward_parity _ _ _
     · simp at h
 
+end Parity
+
+section FamilyLinear
+variable {K : Type} [CommRing K] {cj : K → K}
+
 /-- **Hence every family is (conjugate-)linear as executed**: for the term `t` that `familyTerm`
 builds — the very term the driver evaluates and the harness compares with the element's output on
 `E1`, `E2` and `a·E1+E2` — `denote t (a•x + y) = a'•denote t x + denote t y` with `a' = a`, or
@@ -207,7 +217,29 @@ example : ∀ f : Family, ∃ args : List (Arg ℤ), (familyTerm f args).isSome 
   · exact ⟨[.none, .mat [], .mat []], rfl⟩
   · exact ⟨[.mat [], .vec [], .mat [], .vec []], rfl⟩
 
-end Linear
+end FamilyLinear
+
+/-- **What the driver prints is a (conjugate-)linear map over ℂ.**  The driver evaluates
+`denote CDy.conj t` on Gaussian dyadic rationals (`OpIR.CDy`, the exact values of the floats the
+code computes with).  Read as complex numbers (`CDy.toComplex`), the outputs on `x`, `y` and
+`a•x + y` of every term `t` that `familyTerm` builds satisfy the (conjugate-)linearity equation —
+this is the statement about the executed definition, without any ring structure assumed on `CDy`
+(`Lemmas/OpIR.lean: denote_map`, `CDy.scalarHom`, `Dy.toRat_add/_sub/_mul`). -/
+theorem family_semilinear_executed (f : Family) (args : List (Arg CDy)) (t : Term CDy)
+    (h : familyTerm f args = some t) (a : CDy) (x y : List CDy) (hl : x.length = y.length) :
+    (denote CDy.conj t (vadd (smul a x) y)).map CDy.toComplex
+      = vadd (smul (if f.conj then (starRingEnd ℂ) a.toComplex else a.toComplex)
+                ((denote CDy.conj t x).map CDy.toComplex))
+             ((denote CDy.conj t y).map CDy.toComplex) := by
+  have hp : parity (t.map CDy.toComplex) = some f.conj := by
+    rw [parity_map]; exact family_parity f args t h
+  rw [denote_map CDy.scalarHom, denote_map CDy.scalarHom, denote_map CDy.scalarHom,
+    map_vadd CDy.scalarHom, map_smul CDy.scalarHom]
+  exact denote_semilinear_all ⟨fun a b => map_add _ a b, fun a b => map_mul _ a b, fun a => Complex.conj_conj a⟩
+    (t.map CDy.toComplex) f.conj hp a.toComplex (x.map CDy.toComplex) (y.map CDy.toComplex) (by simpa using hl)
+
+example : ∃ (t : Term CDy), familyTerm .lyotCore [.mat [[⟨⟨1, 0⟩, ⟨0, 0⟩⟩]], .vec [⟨⟨1, 1⟩, ⟨0, 0⟩⟩], .mat [[⟨⟨3, 2⟩, ⟨1, 0⟩⟩]]] = some t :=
+  ⟨_, rfl⟩
 
 /-- The hypothesis `IsConj` is satisfiable where it matters: complex conjugation. -/
 theorem isConj_complex : IsConj (starRingEnd ℂ) :=
